@@ -2,9 +2,11 @@
    Proved: the constants (closed facts on the Flocq model of Unit * f64) and every Duration-valued view,
    for all epochs.  Partial: the float-valued accessors and from_mjd/from_jde/from_unix_seconds -- their dataflow
    is proved (C17_float_views_dataflow) and the model is bit-exact against the code on every case of the
-   correspondence run; the "few ulps" bound itself is checked there against exact rationals, not proved. *)
-From Coq Require Import ZArith Bool List.
-From HF Require Import MachInt GenConsts GenUnits Duration Epoch F64 DurationF64 Views SignedNs DurationP EpochP F64P ViewsP Gregorian F64ExactP.
+   correspondence run.  The "few ulps" bound of the float-valued accessors is proved (C17_*_error, Flocq), as is their
+   monotonicity; for the float-taking constructors it is proved on integer day counts and otherwise checked against exact rationals. *)
+From Coq Require Import ZArith Bool List Reals.
+From Flocq Require Import Core.Core IEEE754.BinarySingleNaN.
+From HF Require Import MachInt GenConsts GenUnits Duration Epoch F64 DurationF64 Views SignedNs DurationP EpochP F64P ViewsP Gregorian F64ExactP ViewsFloatP.
 Open Scope Z_scope.
 
 Local Notation D := 86400000000000 (only parsing).
@@ -51,6 +53,34 @@ Proof. exact float_views_dataflow. Qed.
 Theorem C17_from_mjd_integer : forall k t, Z.abs k <= 2 ^ 52 -> Z.abs (k - 15020) <= 6800000 ->
   from_mjd_in_time_scale (f_of_Z k) t = mkE (dur_sub (unit_mul_i64 Day (k - 15020)) (gregorian_epoch_offset t)) t.
 Proof. exact from_mjd_integer. Qed.
+
+(* the float-valued views: within 5 * 2^-53 (relative) plus 2^-49 of one second's worth of the exact count in the unit asked for
+   (within_unit_err unfolds to finiteness and that bound), and monotone in the count they are read from (Flocq) *)
+Theorem C17_jde_utc_days_error : forall e x, to_utc_duration e = Some x -> canon x ->
+  exists r, to_jde_utc_days e = Some r /\ within_unit_err r (clamp (val x + (2415020 * D + D / 2))) Day.
+Proof. exact jde_utc_days_err. Qed.
+Theorem C17_jde_tai_error : forall e tai u, to_tai_duration e = Some tai -> canon tai ->
+  exists r, to_jde_tai e u = Some r /\ within_unit_err r (clamp (clamp (val tai + 15020 * D) + (2400000 * D + D / 2))) u.
+Proof. exact jde_tai_err. Qed.
+Theorem C17_unix_error : forall e x u, to_utc_duration e = Some x -> canon x ->
+  exists r, to_unix e u = Some r /\ within_unit_err r (clamp (val x - 25567 * D)) u.
+Proof. exact unix_err. Qed.
+Theorem C17_tt_centuries_error : forall e x, to_tt_duration e = Some x -> canon x ->
+  exists r, to_tt_centuries_j2k e = Some r /\ within_unit_err r (clamp (val x - 3155716800 * 1000000000)) Century.
+Proof. exact tt_centuries_j2k_err. Qed.
+Theorem C17_within_unit_err_means : forall r v u, within_unit_err r v u <->
+  (is_finite r = true /\
+   (Rabs (B2R r - IZR v / IZR (spec_unit_factor u))
+    <= 5 * bpow radix2 (-53) * Rabs (IZR v / IZR (spec_unit_factor u)) + bpow radix2 (-49) / (IZR (spec_unit_factor u) / 1000000000))%R).
+Proof. intros r v u. reflexivity. Qed.
+Theorem C17_jde_utc_days_monotone : forall e1 e2 x1 x2 r1 r2,
+  to_utc_duration e1 = Some x1 -> to_utc_duration e2 = Some x2 -> canon x1 -> canon x2 -> val x1 <= val x2 ->
+  to_jde_utc_days e1 = Some r1 -> to_jde_utc_days e2 = Some r2 -> (B2R r1 <= B2R r2)%R.
+Proof. exact jde_utc_days_monotone. Qed.
+Theorem C17_unix_monotone : forall e1 e2 x1 x2 u r1 r2,
+  to_utc_duration e1 = Some x1 -> to_utc_duration e2 = Some x2 -> canon x1 -> canon x2 -> val x1 <= val x2 ->
+  to_unix e1 u = Some r1 -> to_unix e2 u = Some r2 -> (B2R r1 <= B2R r2)%R.
+Proof. exact unix_monotone. Qed.
 
 Example C17_nonvacuous :
   to_jde_tai_duration (mkE (mkD 0 0) TAI) = Some (mkD 66 377611200000000000) /\
